@@ -59,6 +59,7 @@ fn single_node_world(id: String, case: &Case, ops: Vec<Op>) -> WorldSpec {
         sched: SchedSpec { policy: Policy::Serial, seed: 0, max_yields: 200_000 },
         files: vec![],
         monitors: vec![],
+        fresh_threads: false,
     }
 }
 
@@ -214,6 +215,7 @@ pub fn run(ctx: &Ctx) -> ! {
                 sched: SchedSpec { policy: Policy::Random { p }, seed: rng.next_u64(), max_yields: 200_000 },
                 files: vec![],
                 monitors: vec![],
+                fresh_threads: false,
             });
         }
         made += chunk;
